@@ -31,6 +31,11 @@ PROPS = {
                 thorough={"checks": 10000, "shards": 16, "timeout": 2400},
                 technique="property-based fault injection (rapid): generated failing subsets x failure kinds x strike positions, error-list reference model",
                 level_text="generated fault plans (never started, stopped before/while/after the handler answered, handler errors with all status codes, reply+error) over 1-7 nodes; the error text is compared with a model of who failed how; strike positions are controlled through handler gates"),
+    "C11": dict(SCEN, pkg="./props/c11", level="exploration",
+                quick={"checks": 1000, "shards": 4, "timeout": 600},
+                thorough={"checks": 10000, "shards": 16, "timeout": 2400},
+                technique="model-based property testing (rapid): generated level scripts, reply/error sequences and observation plans compared with a correctable reference model after every step",
+                level_text="a reference model of the correctable (published value/level, completion, watchers) is driven by the recorded quorum-function invocations and compared with Get / typed Get / Done / Watch after every generated step; arrival order is controlled through gates"),
     "C13": {
         "pkg": "./props/c13", "overlay": "access", "puppet": True, "level": "exploration", "engine": "pure",
         "quick": {"checks": 6000, "shards": 4, "timeout": 600},
